@@ -131,7 +131,11 @@ func enumAllPrograms(c *fw.Ctx, do func(src, shard string) bool) {
 		}
 	}
 	for _, id := range []string{"C04", "C03", "C02"} {
-		enumSeq(seqSpecs[id], c, do)
+		sp := seqSpecs[id]
+		if c.Quick() {
+			sp.quickLen-- // one level less than the property's own check, to keep the quick tier short
+		}
+		enumSeq(sp, c, do)
 		if c.Expired() {
 			return
 		}
